@@ -103,6 +103,14 @@ def cy2py(text):
         mv = _re_cdef_var.match(line)
         if mv:
             rest = mv.group(3).strip().rstrip(',')
+            mc = re.match(r'^([A-Za-z_][A-Za-z0-9_]*)((?:\[\s*\d+\s*\])+)$', rest)
+            if mc:
+                # C array of fixed size: an (uninitialised) array of that shape
+                dims = ', '.join(re.findall(r'\d+', mc.group(2)))
+                dropped.append((i + 1, 'C array declaration -> uninitialised array of that shape', s))
+                out.append('%s%s = __pyvc_carray__((%s,))' % (mv.group(1), mc.group(1), dims))
+                i += 1
+                continue
             if '=' in rest and not rest.split('=')[0].strip().count(','):
                 dropped.append((i + 1, 'C type of declaration (assignment kept)', s))
                 out.append('%s%s' % (mv.group(1), rest))
@@ -131,6 +139,12 @@ def _split_params(s):
     if cur.strip():
         parts.append(cur)
     return parts
+
+
+def _carray(shape):
+    """a C array `T name[a][b]`: uninitialised storage of that shape (reading an element never written yields None, which no arithmetic accepts)"""
+    import numpy as _np
+    return _np.empty(shape, dtype=object)
 
 
 # ----------------------------------------------------------------------------
@@ -567,6 +581,7 @@ class Loader(object):
         mod.__package__ = dotted.rsplit('.', 1)[0]
         mod.__dict__['__builtins__'] = self.builtins
         mod.__dict__['__pyvc_const__'] = _const_from_literal
+        mod.__dict__['__pyvc_carray__'] = _carray
         mod.__dict__['__pyvc_loop__'] = self._loop_hook
         mod.__dict__['__pyvc_get__'] = self._loop_get
         from . import engine as _eng
